@@ -19,7 +19,7 @@ use datacake_rpc::{Channel, Handler, Request, RpcService, Server, ServiceRegistr
 
 use crate::faulty::{Directive, FaultyStore};
 use crate::group::decode_set;
-use crate::rpc::{free_addr, runtime};
+use crate::rpc::runtime;
 use crate::store::{gen_data, show_data};
 use crate::{hex, p_u64, Domain};
 
@@ -92,8 +92,7 @@ async fn make_node(id: u8, n: usize) -> NodeRt {
     let (gate, reached) = (fs.gate.clone(), fs.reached.clone());
     let group = KeyspaceGroup::new(Arc::new(fs), clock.clone()).await;
     let network = RpcNetwork::default();
-    let addr = free_addr();
-    let server = Server::listen(addr).await.expect("listen");
+    let (addr, server) = crate::rpc::listen_free().await;
     server.add_service(ConsistencyService::new(group.clone(), network.clone()));
     server.add_service(ReplicationService::new(group.clone()));
     NodeRt { id, addr, clock, group, network, directive, gate, reached, trackers: (0..n).map(|_| Tracker::default()).collect(), _server: server }
@@ -664,8 +663,7 @@ impl Domain for ClusterDomain {
                 if let Some((s, _)) = self.fake.take() {
                     s.shutdown();
                 }
-                let addr = free_addr();
-                let server = rt.block_on(Server::listen(addr)).expect("listen");
+                let (addr, server) = rt.block_on(crate::rpc::listen_free());
                 server.add_service(FakeRepl { nested });
                 self.fake = Some((server, addr));
                 let src = &self.nodes[j];
